@@ -3,6 +3,7 @@ package props
 import (
 	"encoding/json"
 	"fmt"
+	"strings"
 
 	"github.com/trustbloc/sidetree-core-go/pkg/api/operation"
 	"github.com/trustbloc/sidetree-core-go/pkg/commitment"
@@ -198,7 +199,8 @@ func c11(r *hx.Run) {
 		d1 := map[string]interface{}{"service": []interface{}{fx.ServiceEntry("svc9", "https://example.com/9")}, "publicKey": []interface{}{docKey}}
 		d1Patches := []interface{}{map[string]interface{}{"action": "replace", "document": map[string]interface{}{"publicKeys": []interface{}{docKey}, "services": []interface{}{fx.ServiceEntry("svc9", "https://example.com/9")}}}}
 		rvr, _ := commitment.GetRevealValue(jwks["r0"], c.code)
-		ri := &client.RecoverRequestInfo{DidSuffix: suffix, RecoveryKey: jwks["r0"], RecoveryCommitment: commits["r1"], UpdateCommitment: commits["u2"], AnchorOrigin: origins[c.origin],
+		rorigin := origins[(c.origin+1)%len(origins)] // the recover moves the DID to another anchor origin
+		ri := &client.RecoverRequestInfo{DidSuffix: suffix, RecoveryKey: jwks["r0"], RecoveryCommitment: commits["r1"], UpdateCommitment: commits["u2"], AnchorOrigin: rorigin,
 			AnchorFrom: from, AnchorUntil: until, MultihashCode: c.code, Signer: libSigner(keys["r0"], kid), RevealValue: rvr}
 		if c.opaque {
 			ri.OpaqueDocument = string(mustJSON(d1))
@@ -217,7 +219,7 @@ func c11(r *hx.Run) {
 		}
 		rsd, err := ver.Parser.ParseSignedDataForRecover(rop.SignedData)
 		if err != nil || rop.UniqueSuffix != suffix || rop.RevealValue != fx.RevealN(keys["r0"], c.code, nonce) || rop.Delta.UpdateCommitment != commits["u2"] ||
-			rsd.RecoveryCommitment != commits["r1"] || rsd.AnchorFrom != from || rsd.AnchorUntil != until || *rsd.RecoveryKey != *jwks["r0"] || !jsonEq(rsd.AnchorOrigin, origins[c.origin]) {
+			rsd.RecoveryCommitment != commits["r1"] || rsd.AnchorFrom != from || rsd.AnchorUntil != until || *rsd.RecoveryKey != *jwks["r0"] || !jsonEq(rsd.AnchorOrigin, rorigin) {
 			fail("recover-parse-back", fmt.Sprintf("recover does not parse back to the supplied values (err=%v)", err))
 		}
 		// ---- deactivate
@@ -274,8 +276,12 @@ func c11(r *hx.Run) {
 			if got.Doc != doc.Norm(sc.doc) || got.Upd != sc.upd || got.Rec != sc.rec || got.Deact != sc.deact {
 				fail("effect:"+sc.name, fmt.Sprintf("state after %s differs from the intended one\n  got : %s\n  want: doc=%s upd=%s rec=%s deact=%v", sc.name, got.Core(), doc.Norm(sc.doc), short(sc.upd), short(sc.rec), sc.deact))
 			}
-			if !sc.deact && len(sc.placed) > 1 && sc.name != "create+update" && !jsonEq(rm.AnchorOrigin, origins[c.origin]) {
-				fail("effect-origin:"+sc.name, fmt.Sprintf("anchor origin %v, want %v", rm.AnchorOrigin, origins[c.origin]))
+			wantOrigin := origins[c.origin]
+			if strings.HasSuffix(sc.name, "recover") {
+				wantOrigin = rorigin
+			}
+			if !sc.deact && !jsonEq(rm.AnchorOrigin, wantOrigin) {
+				fail("effect-origin:"+sc.name, fmt.Sprintf("anchor origin %v, want %v", rm.AnchorOrigin, wantOrigin))
 			}
 			r.Outcome(sc.name)
 		}
